@@ -41,12 +41,17 @@ CASES = [
 ]
 
 
+class NotCanonical(Exception):
+    pass
+
+
 class Paths:
     def __init__(self):
         self.cells = {}
         self.keep = []
+        self.canonical = set()  # ids of path objects that came out of fs::canonicalize (or are copies of such)
 
-    def make(self, text):
+    def make(self, text, canonical=False):
         cell = [text]
 
         def push(x):
@@ -59,8 +64,8 @@ class Paths:
             return True
 
         o = ("O", "path", (
-            ("clone", ("PY", lambda: self.make(cell[0]))), ("to_path_buf", ("PY", lambda: self.make(cell[0]))), ("to_owned", ("PY", lambda: self.make(cell[0]))),
-            ("push", ("PY", push)), ("pop", ("PY", pop)),
+            ("clone", ("PY", lambda: self.make(cell[0], id(o) in self.canonical))), ("to_path_buf", ("PY", lambda: self.make(cell[0], id(o) in self.canonical))), ("to_owned", ("PY", lambda: self.make(cell[0], id(o) in self.canonical))),
+            ("push", ("PY", lambda x: (self.canonical.discard(id(o)), push(x))[1])), ("pop", ("PY", pop)),
             ("join", ("PY", lambda x: self.make(self.text(x) if self.text(x).startswith("/") else posixpath.join(cell[0], self.text(x))))),
             ("file_name", ("PY", lambda: S("Some", posixpath.basename(cell[0])) if posixpath.basename(cell[0]) else NONE)),
             ("parent", ("PY", lambda: S("Some", self.make(posixpath.dirname(cell[0]))))),
@@ -69,6 +74,8 @@ class Paths:
         ))
         self.cells[id(o)] = cell
         self.keep.append(o)
+        if canonical:
+            self.canonical.add(id(o))
         return o
 
     def text(self, v):
@@ -90,10 +97,10 @@ def run_sequence(includes):
     def canonicalize(args):
         t = P.text(args[0])
         t = posixpath.normpath(t if t.startswith("/") else posixpath.join(CWD, t))  # a relative path is relative to the process
-        return S("Ok", P.make(t)) if t in FILES else S("Err", ("O", "io-error", ()))
+        return S("Ok", P.make(t, True)) if t in FILES else S("Err", ("O", "io-error", ()))
 
     w.stubs = {"canonicalize": canonicalize}
-    w.opaque = (("OsString::from", lambda _n, a: P.text(a[0])), ("Path::new", lambda _n, a: P.make(P.text(a[0]))), ("PathBuf::from", lambda _n, a: P.make(P.text(a[0]))))
+    w.opaque = (("OsString::from", lambda _n, a: P.text(a[0])), ("OsStr::new", lambda _n, a: P.text(a[0])), ("std::ffi::OsStr::new", lambda _n, a: P.text(a[0])), ("std::ffi::OsString::from", lambda _n, a: P.text(a[0])), ("Path::new", lambda _n, a: P.make(P.text(a[0]))), ("PathBuf::from", lambda _n, a: P.make(P.text(a[0]))))
     if "MAIN_SEPARATOR" not in w.consts:
         w.consts["std::path::MAIN_SEPARATOR"] = {"k": "Lit", "lit": "char", "value": "/", "line": 0}
         w.consts["MAIN_SEPARATOR"] = w.consts["std::path::MAIN_SEPARATOR"]
@@ -104,7 +111,7 @@ def run_sequence(includes):
     if not lf:
         raise Unsupported("struct Library not found")
     for is_dir, p in ((True, LIBDIR), (False, LIBFILE), (False, LIBFILE2)):
-        libs.items.append(S("Library", *[{"dir": is_dir, "path": P.make(p)}[f_] for f_ in lf]))
+        libs.items.append(S("Library", *[{"dir": is_dir, "path": P.make(p, not is_dir)}[f_] for f_ in lf]))  # (a library file is stored canonicalised)
     here = P.make(SRC)
     vals = {"current_location": S("Some", here), "black_paths": MSet([]), "user_inputs": MSet([]), "listed_dirs": MSet([]), "libraries": libs, "stack": stack}
     fields = w.structs["FileStack"]
@@ -128,10 +135,69 @@ def run_sequence(includes):
         res = w.call_fn(fn, [fs_, inc])
         kind = res[1] if isinstance(res, tuple) and len(res) > 2 and res[0] == "S" else "?"
         queued = [P.text(x) for x in stack.items[before:]]
+        for x in stack.items[before:]:
+            if id(x) not in P.canonical:
+                raise NotCanonical("include \"%s\": the path queued, %s, is not the result of fs::canonicalize (nor the stored path of a library file)" % (text, P.text(x)))
         loc = w.struct_field(fs_, "current_location")
         loc_t = P.text(loc[2][0]) if isinstance(loc, tuple) and len(loc) > 2 and loc[1] == "Some" else None
         out.append((kind, queued, loc_t))
     return out
+
+
+def eval_take_next():
+    """`FileStack::take_next` on a stack [a, b, c'] with c already visited (c' is another path object with the text of c):
+    -> problem text or None"""
+    w = passeval.PassWorld([ERRS, INC], INC)
+    w.lenient_opaque = True
+    if ("FileStack", "take_next") not in w.methods:
+        raise Unsupported("FileStack::take_next not found")
+    P = Paths()
+    passeval.VALUE_KEY[0] = lambda v: P.cells[id(v)][0] if isinstance(v, tuple) and id(v) in P.cells else None
+    try:
+        a, b, c, c2, d = (P.make("/proj/src/a.circom", True), P.make("/proj/lib/b.circom", True), P.make("/proj/src/c.circom", True), P.make("/proj/src/c.circom", True), P.make("/other/d.circom", True))
+        stack = Sink()
+        stack.items = [a, d, b, c2]
+        black = MSet([c, d])
+        vals = {"current_location": NONE, "black_paths": black, "user_inputs": MSet([]), "listed_dirs": MSet([]), "libraries": Sink(), "stack": stack}
+        fields = w.structs["FileStack"]
+        missing = [f_ for f_ in fields if f_ not in vals]
+        if missing:
+            raise Unsupported("FileStack has fields the world does not know: %s" % missing)
+        fs_ = S("FileStack", *[vals[f_] for f_ in fields])
+        fn = w.methods[("FileStack", "take_next")][0]
+        want = [("/proj/lib/b.circom", "/proj/lib"), ("/proj/src/a.circom", "/proj/src"), (None, "/proj/src")]
+        for k_, (wp, wl) in enumerate(want):
+            res = w.call_fn(fn, [fs_])
+            got = P.text(res[2][0]) if isinstance(res, tuple) and len(res) > 2 and res[1] == "Some" else (None if res == NONE else "?")
+            loc = w.struct_field(fs_, "current_location")
+            loc_t = P.text(loc[2][0]) if isinstance(loc, tuple) and len(loc) > 2 and loc[1] == "Some" else None
+            if got != wp:
+                return "call %d hands out %s, expected %s (the stack holds a, d, b, c from the bottom; c and d were visited before)" % (k_ + 1, got, wp)
+            if loc_t != wl:
+                return "after handing out %s the directory includes are resolved from is %s, expected %s" % (got, loc_t, wl)
+            if wp is not None and not any(P.cells.get(id(x), [None])[0] == wp for x in black.items):
+                return "%s is handed out without being marked as visited" % wp
+        return None
+    finally:
+        passeval.VALUE_KEY[0] = None
+
+
+def rule_take_next(ctx, R):
+    """True when decided"""
+    from astlib import find_fn, site
+
+    fn = find_fn(INC, "take_next")
+    st = site(INC, fn) if fn else None
+    try:
+        problem = eval_take_next()
+    except Unsupported as u:
+        ctx.note("FileStack::take_next is outside the evaluator's subset (%s): shape obligations apply" % u)
+        return False
+    except Panic as p_:
+        ctx.bad(R, "take_next/evaluated/no-panic", "panics: %s" % p_, st)
+        return True
+    ctx.check(R, "take_next/evaluated/hands-out-unvisited-files-once-and-moves-the-resolution-base", problem is None, problem or "visited files are skipped, a file is marked visited when it is handed out, the directory of the file handed out becomes the base for its includes, an empty stack gives None", st)
+    return True
 
 
 def rule(ctx, R):
@@ -156,6 +222,8 @@ def rule(ctx, R):
                         problems.setdefault("error", "%s: resolves to %s; expected the include error (no file of that name next to the including file, the library directory is not asked for paths starting with `.`, the library file only answers to its bare name)" % (ctxt, queued or kind))
                 elif kind != "Ok" or queued != [want]:
                     problems.setdefault("order", "%s: %s; expected %s" % (ctxt, ("queues %s" % queued) if kind == "Ok" else "is an error", want))
+    except NotCanonical as nc:
+        problems["canonical"] = str(nc)
     except Unsupported as u:
         ctx.note("add_include / include_library are outside the evaluator's subset (%s): shape obligations apply" % u)
         return False
@@ -164,5 +232,6 @@ def rule(ctx, R):
         return True
     ctx.check(R, "add_include/evaluated/including-file-first-then-libraries", "order" not in problems, problems.get("order") or "%d include sequences: the file next to the including file wins, then the library directory, then the library file by its bare name" % n, st)
     ctx.check(R, "add_include/evaluated/unresolvable-include-is-the-error", "error" not in problems, problems.get("error") or "paths with a directory component or a leading `.` that do not exist next to the including file are errors; nothing is queued", st)
+    ctx.check(R, "add_include/evaluated/queued-paths-are-canonical", "canonical" not in problems, problems.get("canonical") or "every path queued by an include came out of fs::canonicalize or is the stored path of a library file", st)
     ctx.check(R, "add_include/evaluated/resolution-base-unchanged", "location" not in problems, problems.get("location") or "resolving an include - also through a library - leaves the directory of the including file as the base for its next include", st)
     return True
